@@ -382,7 +382,10 @@ class S:
         n = to_S(n)
         if not (n.is_const and n.is_real and n.re > 0):
             raise Unsupported("modulo by a symbolic value")
-        k = (self / n).floor_unique()
+        try:
+            k = (self / n).floor_unique()
+        except Unsupported:
+            k = ctx().floor(self / n)             # integer part depends on the input: symbolic floor (mixed int/real query)
         return self - n * k
 
     def __floordiv__(self, n):
